@@ -866,7 +866,76 @@ pub fn gen_cache(rng: &mut Rng, tier: &Tier) -> Vec<Case> {
     cases
 }
 
+/// Properties of a single filter quantify over its histories, and a filter's history may contain a reset, a copy
+/// (`Clone`) or a state extraction / re-injection (`IntoGuts` / `FromGuts`) after which the same filter carries on:
+/// a fraction of the generated single-filter cases gets one of the three inserted.
+///  * reset tail: `reset` of every instance, then all the case's operations once more;
+///  * copy / guts round trip at a random point: every instance is replaced by its copy (ids + 50) from there on.
+fn with_lifecycle(cases: Vec<Case>, rng: &mut Rng) -> Vec<Case> {
+    let mut out = Vec::with_capacity(cases.len() + cases.len() / 4);
+    for c in cases {
+        let news: Vec<String> =
+            c.iter().filter(|l| l.starts_with("new ")).map(|l| l.split(' ').nth(1).unwrap().to_string()).collect();
+        let plain = c.iter().all(|l| {
+            let op = l.split(' ').next().unwrap();
+            matches!(op, "new" | "f" | "acc" | "guts" | "cfg" | "same" | "compose")
+        }) && !news.is_empty()
+            && c.iter().take(news.len()).all(|l| l.starts_with("new "))
+            && c.iter().all(|l| !l.contains("src="))
+            && c.len() > news.len();
+        if !plain || !rng.chance(1, 4) {
+            out.push(c);
+            continue;
+        }
+        let body: Vec<String> = c[news.len()..].to_vec();
+        let mut v = c.clone();
+        match rng.below(3) {
+            0 => {
+                for id in &news {
+                    v.push(format!("reset {}", id));
+                }
+                v.extend(body.iter().cloned());
+            }
+            k => {
+                let at = news.len() + rng.range(0, body.len() as i64) as usize;
+                let op = if k == 1 { "clone" } else { "gutsrt" };
+                let tail: Vec<String> = v.split_off(at);
+                for id in &news {
+                    v.push(format!("{} {} {}", op, id, id.parse::<u64>().unwrap() + 50));
+                }
+                for l in tail {
+                    let mut t: Vec<String> = l.split(' ').map(|x| x.to_string()).collect();
+                    let idx: &[usize] = match t[0].as_str() {
+                        "same" => &[1, 2],
+                        "compose" => &[2],
+                        _ => &[1],
+                    };
+                    for &i in idx {
+                        if news.contains(&t[i]) {
+                            t[i] = (t[i].parse::<u64>().unwrap() + 50).to_string();
+                        }
+                    }
+                    v.push(t.join(" "));
+                }
+            }
+        }
+        out.push(c);
+        out.push(v);
+    }
+    out
+}
+
 pub fn generate(prop: &str, rng: &mut Rng, tier: &Tier) -> Vec<Case> {
+    let cases = generate_plain(prop, rng, tier);
+    match prop {
+        "C02" | "C03" | "C04" | "C05" | "C05p" | "C06" | "C08" | "C09" | "C13" | "C14" | "C15" | "C16" | "C17" | "C18" => {
+            with_lifecycle(cases, rng)
+        }
+        _ => cases,
+    }
+}
+
+fn generate_plain(prop: &str, rng: &mut Rng, tier: &Tier) -> Vec<Case> {
     match prop {
         "C02" => gen_median(rng, tier, false),
         "C17" => gen_median(rng, tier, true),
